@@ -3,8 +3,15 @@
 //! note: BOLT-12: a parsed invoice request, invoice or static invoice exists only if its signature verifies, under the signature tag, over the merkle root of exactly the bytes that were parsed, against the key named in those bytes (cryptography and the merkle construction uninterpreted)
 //! novaclemmas: no lemmas
 //! trusted: R15 (deep slices): the three `TryFrom<ParsedMessage<..>>::try_from` functions unpack large TLV tuples and run semantic validation; the unit extracts, on every run and verbatim, the signature tail of each (missing-signature test, TaggedHash::from_valid_tlv_stream_bytes(SIGNATURE_TAG, &bytes), choice of the key, merkle::verify_signature(..)?), and merkle::verify_signature whole; Secp256k1::verify_schnorr is external_body over the uninterpreted schnorr_valid; TaggedHash is an opaque value determined by (tag, bytes); contents skeletons keep only the signing keys; TLV parsing, semantic validation of the contents and construction of the result are dropped and not claimed
+//! trusted: assume_specification for core::cmp::max / core::cmp::min (std definitions): present in every unit so that a change that introduces them is verified instead of being rejected by the tool
 use vstd::prelude::*;
 verus! {
+use vstd::std_specs::cmp::*;
+use core::cmp;
+pub assume_specification<T: core::cmp::Ord>[core::cmp::max::<T>](a: T, b: T) -> (r: T)
+    ensures T::obeys_cmp_spec() ==> r == (if b.cmp_spec(&a) == core::cmp::Ordering::Less { a } else { b });
+pub assume_specification<T: core::cmp::Ord>[core::cmp::min::<T>](a: T, b: T) -> (r: T)
+    ensures T::obeys_cmp_spec() ==> r == (if b.cmp_spec(&a) == core::cmp::Ordering::Less { b } else { a });
 #[derive(Clone, Copy)] pub struct Signature(pub u64);
 #[derive(Clone, Copy)] pub struct PublicKey(pub u64);
 #[derive(Clone, Copy)] pub struct XOnlyPublicKey(pub u64);
